@@ -34,6 +34,8 @@ def task(arg):
     lf = retmodel.Lifter(year, K, S, forms, timeout_ms=30000)
     rm = lf.rm
     res = {'year': year, 'obl': [], 'viol': [], 'lf': None}
+    res['model_paths'] = sum(len(v) for v in rm.summ.values())
+    res['model_lines'] = len(rm.summ)
     for name in names:
         g = tm.var('i:' + name, 'B')
         cons = consulted(rm, name)
@@ -114,7 +116,9 @@ def run(tier):
         for i in range(nchunks):
             tasks.append((y, K, S, names[i::nchunks], gates['limit_gates'] if i == 0 else [], ['1040']))
     results = common.pmap(task, tasks)
+    mp = {}
     for r in results:
+        mp[r['year']] = (r.get('model_lines', 0), r.get('model_paths', 0))
         for nm, res, dt, desc in r['obl']:
             if res == 'vacuous':
                 c.inconclusive.append('vacuous twin: ' + nm)
@@ -133,4 +137,6 @@ def run(tier):
                 c.inconclusive.append('witness did not reproduce: %s (%s)' % (v['key'], out.get('detail')))
         if r['lf']:
             c.solver_s += r['lf']['secs']
+    c.paths += sum(v[1] for v in mp.values())
+    c.extra['whole_return_model'] = {str(y): {'lines': v[0], 'symbolic_paths_composed': v[1]} for y, v in mp.items()}
     return c.finish()
